@@ -537,6 +537,17 @@ def corpus():
     c.append(Scn(True, False, [('a.svc', 'login')], [], 0, L("5 C 1.2.3.4 1 10.0.0.1 6667", "5 P :+x a b", "5 D", "5 C 1.2.3.5 2 10.0.0.1 6667", "5 P :+x c d", "-1 X a.svc 5_1 :OK stale", "-1 X a.svc 5_1 :NO stale", "5 H", "-1 X a.svc 5_2 :OK fresh"), "stale serial after id reuse"))
     # challenge / response with two services
     c.append(Scn(True, False, two_login, [], 0, L("3 C 1.2.3.4 1 10.0.0.1 6667", "3 P :+x a b", "-1 X a.svc 3_1 :MORE first?", "-1 X b.svc 3_1 :MORE second?", "3 P :answer", "-1 X a.svc 3_1 :OK a", "-1 X b.svc 3_1 :AGAIN no", "3 U u :r", "3 H"), "two MORE challenges"))
+    # a reload drops a service somebody still awaits; its answer (OK / NO) must still count for that client, newcomers do not ask it
+    for txt in ("OK late:7", "NO refused late"):
+        c.append(Scn(True, False, two_login, [], 0, L("5 C 1.2.3.4 1 10.0.0.1 6667", "5 P :+x a b") + [('R', [('a.svc', 'login')], [], 0)] +
+                     L("6 C 1.2.3.6 1 10.0.0.1 6667", "6 P :+x c d", "-1 X b.svc 5_1 :" + txt, "5 H", "-1 X a.svc 5_1 :OK a:1", "-1 X a.svc 6_2 :OK c:2", "6 H"), "service dropped by a reload while awaited, then its answer (%s)" % txt[:2]))
+    c.append(Scn(True, False, two_login, [], 0, L("5 C 1.2.3.4 1 10.0.0.1 6667", "5 P :+x a b") + [('R', [('a.svc', 'login')], [], 0), ('R', [('a.svc', 'login'), ('b.svc', 'dronecheck')], [], 0)] +
+                 L("-1 x b.svc 5_1 :gone", "-1 X b.svc 5_1 :OK", "-1 X a.svc 5_1 :OK a:1", "5 H", "5 D"), "service dropped and re-added under another protocol while awaited"))
+    # id reuse where the departed instance's serial (1) is a textual prefix of the newcomer's (0x10)
+    ls = ["5 C 1.2.3.4 1 10.0.0.1 6667", "5 P :+x a b", "5 D"]
+    for k in range(14): ls += ["%d C 1.2.3.9 1 10.0.0.1 6667" % (20 + k), "%d D" % (20 + k)]
+    ls += ["5 C 1.2.3.5 2 10.0.0.1 6667", "5 P :+x c d", "-1 X a.svc 5_1 :OK stale", "-1 X a.svc 5_1 :NO stale", "-1 X a.svc 5_100 :OK longer", "5 H", "-1 X a.svc 5_10 :OK fresh"]
+    c.append(Scn(True, False, [('a.svc', 'login')], [], 0, L(*ls), "stale serial that is a prefix of the live one"))
     return c
 
 def fmt_steps(scn, steps):
